@@ -274,7 +274,27 @@ class Open(Op):
         return o.kind()
 
 
-CATALOG = {c.name: c for c in (Open, Shell, ExecOut, StreamingShell, Root, Reboot, Stat, List, Pull, Push)}
+class Reconnect(Op):
+    """close() followed by connect() (a watchdog that re-establishes the connection)"""
+    name = 'reconnect'
+
+    def setup(self, ctx, st, w, k):
+        pass
+
+    def run(self, w):
+        o = w.try_call('close')
+        if not o.ok:
+            return o
+        return w.try_call('connect')
+
+    def check(self, ctx, w, st, o, expected, tag):
+        ctx.check(o.value is True, tag + 'close() followed by connect() returns True against a device that accepts the connection')
+
+    def observe(self, o):
+        return o.kind()
+
+
+CATALOG = {c.name: c for c in (Open, Reconnect, Shell, ExecOut, StreamingShell, Root, Reboot, Stat, List, Pull, Push)}
 
 
 def make(spec):
